@@ -16,8 +16,19 @@ for d in sorted(os.listdir(os.path.join(V, "seeded"))):
     note = m.get("strengthening", "")
     rows.append("| %s | %s | %s | %s | %s | %s |" % (d, m.get("breaks_property", ""), one(m.get("summary", "")), one(m.get("needs_to_manifest", "")),
                 ", ".join(caught) + ((" (missed by " + ", ".join(missed) + ")") if missed else ""), one(note)))
+# axioms per check, from the evidence files written by the last runs
+ax_rows = ["| check | theorems (discharged / obligations) | axioms reported by Print Assumptions |", "|---|---|---|"]
+for f in sorted(os.listdir(os.path.join(V, "evidence"))):
+    try:
+        e = json.load(open(os.path.join(V, "evidence", f)))
+    except Exception:
+        continue
+    c = e.get("coverage", {})
+    ax = c.get("axioms_reported_by_Print_Assumptions", [])
+    ax_rows.append("| %s | %s / %s | %s |" % (e.get("property_id"), c.get("discharged"), c.get("obligations"), ", ".join("`%s`" % a for a in ax) if ax else "none (closed under the global context)"))
 p = os.path.join(V, "DESIGN.md")
 s = open(p).read()
+s = re.sub(r"<!-- AXIOMS-TABLE-BEGIN -->.*<!-- AXIOMS-TABLE-END -->", "<!-- AXIOMS-TABLE-BEGIN -->\n" + "\n".join(ax_rows) + "\n<!-- AXIOMS-TABLE-END -->", s, flags=re.S)
 s = re.sub(r"<!-- SEEDED-TABLE-BEGIN -->.*<!-- SEEDED-TABLE-END -->", "<!-- SEEDED-TABLE-BEGIN -->\n" + "\n".join(rows) + "\n<!-- SEEDED-TABLE-END -->", s, flags=re.S)
 open(p, "w").write(s)
 print(len(rows) - 2, "seeded changes listed")
